@@ -7,6 +7,8 @@
 //!                                           std: longest `-?[0-9]+` prefix handed to str::parse
 //!   c12.getparser <str> <ptr-bits> <base>   StdParser::<T>::parse_with / parse_with!  (same rendering as c12.prefix)
 //!   c12.stdspec   <str> <ptr-bits>          the real s.parse::<T>() in BOTH columns ('+' accepted): ties Spec.std_parse to std
+//!   c12.show      <int>                     i128/u128::to_string() in BOTH columns: ties Spec.show_int (used by the
+//!                                           print-parse round-trip theorem) to std's decimal printing
 use crate::common::*;
 use konst::parsing::{ErrorKind, ParseValueResult, StdParser};
 use konst::Parser;
@@ -215,6 +217,11 @@ fn emit_stdspec(out: &mut Out, s: &str) {
     let tag = if s.starts_with('+') && accept_count(s) > 0 { "plus".to_string() } else { tag_whole(s) };
     out.line("c12.stdspec", &args, &r, &r, &tag);
 }
+fn emit_show(out: &mut Out, dec: &str) {
+    // `dec` is what to_string() printed; the model re-prints the parsed integer
+    let r = hex(dec.as_bytes());
+    out.line("c12.show", dec, &r, &r, if dec.starts_with('-') { "neg" } else { "pos" });
+}
 fn emit_wp(out: &mut Out, s: &str) {
     emit_whole(out, s);
     emit_prefix(out, s, 0);
@@ -404,6 +411,28 @@ pub fn run(cfg: &Cfg, out: &mut Out) {
             for d in 0..10 {
                 emit_wp(out, &format!("{}{}", v, d));
             }
+        }
+    }
+
+    //    ... and the decimal printing used by the round-trip theorem
+    for &v in &near {
+        emit_show(out, &v.to_string());
+    }
+    for k in 0..128u32 {
+        for d in [-1i128, 0, 1] {
+            emit_show(out, &((1i128 << k.min(126)) + d).to_string());
+            emit_show(out, &(-(1i128 << k.min(126)) + d).to_string());
+            emit_show(out, &((1u128 << k).wrapping_add(d as u128)).to_string());
+        }
+    }
+    emit_show(out, &i128::MIN.to_string());
+    emit_show(out, &i128::MAX.to_string());
+    emit_show(out, &u128::MAX.to_string());
+    let mut p10: u128 = 1;
+    for _ in 0..38 {
+        p10 *= 10;
+        for d in [-1i128, 0, 1] {
+            emit_show(out, &(p10.wrapping_add(d as u128)).to_string());
         }
     }
 
